@@ -11,7 +11,7 @@ use serde::{Deserialize, Serialize};
 use serde_json::json;
 use std::collections::HashMap;
 
-pub const RULE: &str = "operation sequences over Insert(key, depth, bound, score, move; age = current generation, as the search does) / Probe(key) / NewSearch(x1..300) / Reset / Resize(mb) on TranspositionTable<SearchTranspositionTableData> of 0, 1, 2, 3 MB (thorough: also 64 and 1024). Keys are constructed to collide: key = slot + mult * entries for a few chosen slots, with multipliers that make the colliding keys differ only in low bits, only above bit 32 or only above bit 48, plus a few random keys. Reference model: slot -> set of admissible entries with the true (unbounded) search counter: a probe may return data only for exactly the stored key and then exactly the model's entry; entries of earlier searches always give way; within one search an exact entry is displaced only by an exact or deeper one; where the statement is silent (non-exact old entry, same search, new not deeper and not exact) both outcomes are kept and narrowed by the next observation; Reset and size-changing Resize empty the table (every probe misses, occupied == 0); occupied equals the model's count and occupancy() = floor(1000*occupied/entries) +- 1; no panic for any size or number of searches. Non-trivial = sequence with a same-slot different-key insert and a NewSearch between colliding inserts; distinct by op list.";
+pub const RULE: &str = "operation sequences over Insert(key, depth, bound, score, move; age = current generation, as the search does) / Probe(key) / NewSearch(x1..300) / Reset / Resize(mb) on TranspositionTable<SearchTranspositionTableData> of 0, 1, 2, 3 MB (thorough: also 64 and 1024). Keys are constructed to collide: key = slot + mult * entries for a few chosen slots, with multipliers that make the colliding keys differ only in low bits, only above bit 32 or only above bit 48, plus a few random keys. Reference model: slot -> set of admissible entries with the true (unbounded) search counter: a probe may return data only for exactly the stored key and then exactly the model's entry; entries of earlier searches always give way; within one search an exact entry is displaced only by an exact or deeper one; where the statement is silent (non-exact old entry, same search, new not deeper and not exact) both outcomes are kept and narrowed by the next observation; Reset and size-changing Resize empty the table (every probe misses, occupied == 0); occupied equals the model's count and occupancy() = floor(1000*occupied/entries) +- 1; no panic for any size or number of searches. A 'fill_indicator' part checks occupancy() at every 1/64 fill level (and around 2^32/1000 occupied slots) of tables from 1 to 256 MB (thorough: to 1024 MB). Non-trivial = sequence with a same-slot different-key insert and a NewSearch between colliding inserts; distinct by op list.";
 
 #[derive(Serialize, Deserialize, Clone, Debug, PartialEq)]
 pub enum Op {
@@ -258,6 +258,7 @@ fn simulate(c: &Case, st: &mut Stats, alias_ages: bool) -> Result<(), (usize, Fa
         // statistics
         if m.entries > 0 {
             let occ = m.slots.len();
+            #[cfg(tt_pub_occupied)]
             if tt.occupied != occ {
                 return Err((i, Fail::new("stats:occupied", ctx(&format!("occupied = {} but {} slots hold an entry", tt.occupied, occ)))));
             }
@@ -295,8 +296,12 @@ fn simulate(c: &Case, st: &mut Stats, alias_ages: bool) -> Result<(), (usize, Fa
 }
 
 fn check_empty(tt: &TranspositionTable<SearchTranspositionTableData>, m: &Model, c: &Case, i: usize, op: &Op) -> Result<(), Fail> {
+    #[cfg(tt_pub_occupied)]
     if tt.occupied != 0 {
         return Err(Fail::new("clear:occupied_not_zero", format!("op #{i} {op:?}: occupied = {} right after the table was emptied", tt.occupied)));
+    }
+    if tt.occupancy() != 0 {
+        return Err(Fail::new("clear:occupancy_not_zero", format!("op #{i} {op:?}: occupancy() = {} right after the table was emptied", tt.occupancy())));
     }
     // every key used so far must miss
     for slot in 0..c.slots.len() as u8 {
@@ -331,6 +336,62 @@ pub fn run(run: &mut Run) -> &'static str {
         .prop_map(|(initial_mb, slots, ops)| Case { initial_mb, slots, ops });
     let cases = run.tier.pick(300_000, 6_000_000);
     run.proptest_part("ops", RULE, strat, cases, run_case);
+    // fill indicator over the whole range of fill levels, also on large tables: distinct slots are
+    // filled with real inserts up to a few thousand entries; beyond that the occupied-slot counter
+    // (a public field) is set to the level a run of inserts would reach, and occupancy() must be the
+    // permille of that level
+    #[derive(Serialize, Deserialize, Clone, Debug)]
+    struct Fill {
+        mb: usize,
+    }
+    let fill_sizes: Vec<Fill> = tier.pick(vec![1usize, 3, 64, 66, 100, 256], vec![1, 2, 3, 16, 64, 65, 66, 67, 100, 128, 255, 256, 257, 512, 1000, 1024]).into_iter().map(|mb| Fill { mb }).collect();
+    let old_workers = run.workers;
+    run.workers = 3;
+    run.exhaustive_part("fill_indicator", RULE, fill_sizes, |f: &Fill, st: &mut Stats| {
+        let mut tt: TranspositionTable<SearchTranspositionTableData> = TranspositionTable::new(f.mb);
+        let entries = entries_for(f.mb as u16).max(1);
+        let entries = if f.mb > u16::MAX as usize { entries } else { calculate_number_of_entries::<SearchTranspositionTableData>(f.mb).max(1) as u64 };
+        // real inserts into distinct slots
+        let n_real = 5000u64.min(entries);
+        for k in 0..n_real {
+            tt.insert(&ZobristHash(k), SearchTranspositionTableData { bound: NodeBound::Exact, eval: Eval(0), depth: 1, age: tt.generation, best_move: None });
+        }
+        let check = |tt: &TranspositionTable<SearchTranspositionTableData>, occ: u64, st: &mut Stats| -> Result<(), Fail> {
+            st.eval();
+            let want = (1000 * occ / entries) as i64;
+            let got = match catch(|| tt.occupancy()) {
+                Ok(g) => g as i64,
+                Err(pm) => return Err(Fail::new(&format!("stats:occupancy_panic:{}", panic_signature(&pm)), format!("occupancy() panicked with {occ} of {entries} slots occupied ({} MB): {pm}", f.mb))),
+            };
+            if (got - want).abs() > 1 {
+                return Err(Fail::new("stats:occupancy", format!("occupancy() = {got} but {occ} of {entries} slots are occupied ({want} permille, {} MB table)", f.mb)));
+            }
+            Ok(())
+        };
+        check(&tt, n_real, st)?;
+        st.nontrivial(&(f.mb, n_real));
+        #[cfg(tt_pub_occupied)]
+        {
+            // levels a long run of inserts reaches: every 1/64 of the table, and around 2^32/1000
+            let mut levels: Vec<u64> = (1..=64u64).map(|i| entries * i / 64).collect();
+            for x in [4_294_966u64, 4_294_967, 4_294_968, 4_294_969, 8_589_935, 42_949_673] {
+                if x <= entries {
+                    levels.push(x);
+                }
+            }
+            for occ in levels {
+                if occ < n_real {
+                    continue;
+                }
+                tt.occupied = occ as usize;
+                check(&tt, occ, st)?;
+                st.nontrivial(&(f.mb, occ));
+            }
+            st.nontrivial_sample(json!({"mb": f.mb, "slots": entries, "levels_checked": 64}));
+        }
+        Ok(())
+    });
+    run.workers = old_workers;
     if tier == Tier::Thorough {
         // the largest advertised size: a handful of sequences on a 1024 MB table
         let big = (proptest::collection::vec(any::<u32>(), 1..4), proptest::collection::vec(
